@@ -469,7 +469,13 @@ impl PacketReceiver for IceConn {
                 Some(IceSocketWrapper::TcpStream(_, _, _))
             )
         };
-        if current_remote.port() == 0 || (socket_is_inbound_tcp && current_remote != addr) {
+        // With RTP latching enabled the destination may only follow SSRC-validated RTP
+        // (the latching arm below); adopting the source of *any* packet here would let
+        // RTCP, wrong-SSRC RTP, DTLS or garbage set an unset destination.
+        let latching = self.latch_on_rtp.load(Ordering::Relaxed);
+        if !latching
+            && (current_remote.port() == 0 || (socket_is_inbound_tcp && current_remote != addr))
+        {
             *self.remote_addr.write() = addr;
         } else if addr != current_remote {
             // Note: We no longer automatically switch the remote address just by receiving
